@@ -264,7 +264,7 @@ def check_c04(run):
 def check_c19(run):
     run.build_harness()
     run.selftest()
-    run_api_families(run, history_families(run) + setter_families(run)[:2], keys="derived,hostname,port,href", spmodes="late")
+    run_api_families(run, history_families(run) + (setter_families(run)[:1] if run.tier == "quick" else setter_families(run)[:2]), keys="derived,hostname,port,href", spmodes="late")
     fams = [f for f in c01_families(run) if f.name in ("host", "ipv4deep", "brackets")]
     for f in fams:
         f.invariants += ["GettersInv"]
@@ -910,7 +910,7 @@ def check_c17(run):
     keep = ("struct", "path", "class", "creds", "host") if q else ("struct", "path", "class", "creds", "host", "file", "dotdeep", "ws", "brackets")
     fams = [f for f in c01_families(run) if f.name in keep]
     L = filler_letter(run.seed)
-    fams.append(Family("idemquery", "&=+%25a1" + L, 4 if q else 5, prefixes=["http://h/?", "x:o?"], invariants=["PtrOk"]))
+    fams.append(Family("idemquery", "&=+%25a1'" + L, 4 if q else 5, prefixes=["http://h/?", "x:o?"], invariants=["PtrOk"]))   # ' : spelled %27 by the parser of a special URL, literally by the list serializer
     for f in fams:
         f.bases, f.nobase = [], True
         if q and f.name in ("struct", "path"):
@@ -918,8 +918,11 @@ def check_c17(run):
         if q and f.name == "host":
             f.maxlen = 2
         mod = f.write(run.scratch)
-        bad, n = run.tlc_events(mod, f.name, "idem", cfg=mod + ".cfg", chunks=14, events_args=["--names", ",".join(ALL_STRING_PROFILES)])
-        run.samples.append("[%s/idem] %d events (input x profile: y = p(x), z = p(y)) for %d option-composed profiles" % (f.name, n, len(ALL_STRING_PROFILES)))
+        profs = ALL_STRING_PROFILES
+        if q:   # quick: the two predefined ones, the two richest compositions and three seed-chosen single options
+            profs = ["WhatWg", "WhatWgSortQuery", COMPOSED[6], COMPOSED[7], COMPOSED[8]] + rng(run.seed, "c17profs").sample(COMPOSED[:6], 2)
+        bad, n = run.tlc_events(mod, f.name, "idem", cfg=mod + ".cfg", chunks=14, events_args=["--names", ",".join(profs)])
+        run.samples.append("[%s/idem] %d events (input x profile: y = p(x), z = p(y)) for %d option-composed profiles" % (f.name, n, len(profs)))
         absorb_events(run, bad, f.name)
         run.distinct += n
     # (2) GoogleSafeBrowsing / Semantic (and the others again): every spelling of the ordinary-web-URL grammar
